@@ -1818,13 +1818,13 @@ class Quaternion(np.ndarray):
 
         """
         _assert_iterables(dcm, 'Direction Cosine Matrix')
+        dcm = np.copy(dcm)      # Also lists of lists are accepted
+        if dcm.shape != (3, 3):
+            raise TypeError(f"Expected matrix of size (3, 3). Got {dcm.shape}")
         in_SO3 = np.isclose(np.linalg.det(np.atleast_2d(dcm)), 1.0)
         in_SO3 &= np.allclose(dcm@dcm.T, np.identity(3))
         if not in_SO3:
             raise ValueError("Given Direction Cosine Matrix is not in SO(3).")
-        dcm = np.copy(dcm)
-        if dcm.shape != (3, 3):
-            raise TypeError(f"Expected matrix of size (3, 3). Got {dcm.shape}")
         if method.lower() == 'hughes':
             q = hughes(dcm)
         elif method.lower() == 'chiaverini':
